@@ -524,7 +524,7 @@ func tailCallsFamily(budget time.Duration) mc.Family {
 	// through a sub-interval that shares the storage and from an inner loop
 	progs = append(progs,
 		prog{"/a [1 2 3] def a { a 2 99 put } forall", "1 2 99"},
-		prog{"/a [1 1 1 1] def /i 0 def a { /i i 1 add def i 4 lt { a i i 1 add put } if } forall", "1 2 3 4"},
+		prog{"/a [1 1 1 1] def /i 0 def a { /i i 1 add def i 4 ne { a i i 1 add put } if } forall", "1 2 3 4"},
 		prog{"/a [5 6 7 8] def a 1 3 getinterval { a 3 0 put } forall", "6 7 0"},
 		prog{"/a [5 6 7 8] def a { a 1 3 getinterval 2 0 put } forall", "5 6 7 0"},
 		prog{"/a [1 2 3] def a { a 0 99 put } forall a 0 get", "1 2 3 99"},
